@@ -107,6 +107,8 @@ def draw_cfg(rng, prop: str, tier: str, overrides=None) -> dict:
     for f, p in (("i", 0.3), ("t", 0.35), ("d", 0.3), ("w", 0.3), ("o", 0.35)):
         if rng.random() < p:
             flav.append(f)
+    if primary in ("hook", "thook") and rng.random() < 0.35:
+        flav.append("u")  # native dicts keyed by the id callback
     if primary == "fs":
         flav = ["f"]  # the FileSystemTree mappers only know FileSystemEntry data
     cfg["flavours"] = flav
@@ -193,6 +195,8 @@ def _keys_of_flavour(f, cfg):
         return ["o:1", "o:2", "o:3"]
     if f == "f":
         return ["f:1", "f:2", "f:3", "g:1", "g:2"]
+    if f == "u":
+        return ["u:1", "u:2", "u:3"]
     return []
 
 
